@@ -26,6 +26,13 @@ def step (st : State) (line : String) : State × String :=
   if line.startsWith "#" then (st, line) else
   match line.splitOn " " with
   | "E" :: args => (st, EvalD.step args)
+  | ["D", "kconf", allow, deny, am, dm] =>
+    -- the Kafka consumer module's Configure: its lists are its own table's, the empty string sets none
+    match StorageD.listKey? allow am, StorageD.listKey? deny dm with
+    | some allow, some deny =>
+      let spec : Burrow.StorageConf.Spec := { intervals := none, expireGroup := none, minDistance := none, workers := none, queueDepth := none, allow, deny }
+      (st, "kconf acc=" ++ String.join (StorageD.sconfSamples.map fun g => if spec.accepts g then "1" else "0"))
+    | _, _ => (st, "bad-op")
   | "D" :: args => (st, DecodeD.step args)
   | "T" :: args => (st, TmplD.step args)
   | "C" :: args => (st, ConfigD.step args)
